@@ -30,18 +30,16 @@ ASSUMPTIONS = ['json, csv, base64 and numpy behave as documented', 'callers pass
 
 
 def _branches(fi, ctx):
-    """[(test, body)] of an if/elif chain at the top of a function body, plus the trailing statements."""
+    """[(test, [return])] for every return of the function: test = conjunction of the tests of the `if` statements whose BODY encloses the return
+    (None when there is none). An if/elif chain, separate `if` statements that each return, and nested `if`s are the same thing here."""
     out = []
-    body = fi.body()
-    node = next((s for s in body if isinstance(s, ast.If)), None)
-    while node is not None:
-        out.append((node.test, node.body))
-        if len(node.orelse) == 1 and isinstance(node.orelse[0], ast.If):
-            node = node.orelse[0]
-        else:
-            if node.orelse:
-                out.append((None, node.orelse))
-            node = None
+    for r in sorted(fi.returns(), key=lambda n: (n.lineno, n.col_offset)):
+        conj = []
+        for ifn, br in q.enclosing_ifs(fi, r):
+            if br == 'body':
+                conj.extend(q.conjuncts(ifn.test))
+        test = None if not conj else (conj[0] if len(conj) == 1 else ast.copy_location(ast.BoolOp(op=ast.And(), values=conj), conj[0]))
+        out.append((test, [r]))
     return out
 
 
@@ -236,6 +234,28 @@ def _classify(c, k):
     return None
 
 
+def _recogniser_conjuncts(repo, fi, test, k):
+    """Conjuncts of a test over the key variable k; a one-argument predicate helper extracted after the pinned tree (`_is_integer_string(k)`) is
+    replaced by its single returned expression with the parameter renamed to k."""
+    from vlib.proto import known_functions
+    out = []
+    for c in q.conjuncts(test):
+        if isinstance(c, ast.Call) and len(c.args) == 1 and not c.keywords and isinstance(c.args[0], ast.Name) and c.args[0].id == k:
+            tg = [t for t in _resolve(repo, fi, c) if t.where not in known_functions()]
+            if len(tg) == 1 and len(tg[0].real_params) == 1:
+                rets = [r for r in tg[0].returns() if r.value is not None]
+                if len(rets) == 1:
+                    import copy as _copy
+                    e = _copy.deepcopy(tg[0].expand(rets[0].value))
+                    for n in ast.walk(e):
+                        if isinstance(n, ast.Name) and n.id == tg[0].real_params[0]:
+                            n.id = k
+                    out.extend(q.conjuncts(e))
+                    continue
+        out.append(c)
+    return out
+
+
 def t2_key_codec(ctx):
     repo = ctx.repo
     rd = repo.func(M, '_intify_keys')
@@ -255,10 +275,10 @@ def t2_key_codec(ctx):
     lang = None
     rec_node = None
     in_try = any(isinstance(a, ast.Try) for a in rd.ancestors(call))
-    for ifn, br in q.enclosing_ifs(rd, call):
+    for ifn, br in q.enclosing_ifs(rd, call, ifexp=True):
         if br != 'body':
             continue
-        for c in q.conjuncts(ifn.test):
+        for c in _recogniser_conjuncts(repo, rd, ifn.test, k):
             cl = _classify(c, k)
             if cl is not None:
                 lang, rec_node = cl, c
@@ -274,11 +294,11 @@ def t2_key_codec(ctx):
         lang, rec_node = 'SIGNED', call
     wide = None
     if lang is None:
-        for ifn, br in q.enclosing_ifs(rd, call):
-            for c in (q.conjuncts(ifn.test) if br == 'body' else []):
+        for ifn, br in q.enclosing_ifs(rd, call, ifexp=True):
+            for c in (_recogniser_conjuncts(repo, rd, ifn.test, k) if br == 'body' else []):
                 t = unparse(c).replace(k + '.', 'k.').replace(k + '[', 'k[')
                 t = 'k' if t == k else t
-                if t in TOO_WIDE and all(_classify(c2, k) is None for c2 in q.conjuncts(ifn.test)):
+                if t in TOO_WIDE and all(_classify(c2, k) is None for c2 in _recogniser_conjuncts(repo, rd, ifn.test, k)):
                     wide = (c, TOO_WIDE[t])
     if wide is not None:
         ctx.violated('C18.T2', rd, wide[0], 'the reader applies int() to every key accepted by `%s` (%s): an ordinary string key makes load_json raise '
@@ -294,7 +314,8 @@ def t2_key_codec(ctx):
     # is indistinguishable after writing unless the writer tags or escapes one of the two classes
     tagged = any(isinstance(n, (ast.JoinedStr,)) or (isinstance(n, ast.BinOp) and isinstance(n.op, (ast.Add, ast.Mod)))
                  for s in wr.body() for n in ast.walk(s))
-    ctx.check(tagged, 'C18.T2', wr, wr.stmt_of(conv[0]),
+    # the construct of this obligation names the colliding pair of inputs, not the statement: the defect is the same however the writer is spelled
+    ctx.check(tagged, 'C18.T2', wr, 'keys 7 and "7" have the same image' if not tagged else wr.stmt_of(conv[0]),
               'the writer marks converted integer keys, so string keys that look like integers stay strings',
               'int key k and str key str(k) are written identically (str(k) with no tag), and the reader turns every '
               'digit string into an int: a string key such as "7" comes back as the integer 7')
@@ -353,6 +374,13 @@ def _ifexp_table(e):
     if isinstance(e, ast.IfExp) and isinstance(const_value(e.body), str) and isinstance(const_value(e.orelse), str):
         return e.test, const_value(e.body), const_value(e.orelse)
     return None
+
+
+def _resolve(repo, fi, call):
+    try:
+        return repo.resolve_call(fi, call, virtual=False)
+    except Exception:
+        return []
 
 
 def t3_tsv(ctx):
@@ -443,25 +471,43 @@ def t3_tsv(ctx):
                   'data cells are not produced from the header field list `%s`' % hname)
     # read_tsv: omit empty cells, zip header with row, number recovery
     r = repo.func(M, 'read_tsv')
-    comps = [n for n in r.nodes(ast.DictComp)]
+    clo = repo.transparent_closure(r)
     ok_f = False
-    for dc in comps:
-        g = dc.generators[0]
-        zipped = isinstance(g.iter, ast.Call) and dotted(g.iter.func) == 'zip' and len(g.iter.args) == 2
-        filt = any((q.simple_compare(i) or (None, None, None))[1] == '!=' and '' in (const_value(q.simple_compare(i)[0]), const_value(q.simple_compare(i)[2]))
-                   for i in g.ifs if q.simple_compare(i)) or any(isinstance(i, ast.Name) for i in g.ifs)
-        conv = isinstance(dc.value, ast.Call) and dotted(dc.value.func) == '_try_make_number'
-        if zipped:
+    for home in clo:
+        for dc in home.nodes(ast.DictComp):
+            g = dc.generators[0]
+            if not (isinstance(g.iter, ast.Call) and dotted(g.iter.func) == 'zip' and len(g.iter.args) == 2):
+                continue
             ok_f = True
-            ctx.check(filt, 'C18.T3', r, dc, 'empty cells are omitted on read', 'empty cells are not omitted on read (absent fields come back as empty strings)')
-            ctx.check(conv, 'C18.T3', r, dc.value, 'cell values are converted back with _try_make_number', 'cell values are not converted back to numbers')
-            hdr_name = unparse(g.iter.args[0])
-            hd = r.unique_def(hdr_name) if isinstance(g.iter.args[0], ast.Name) else None
-            ctx.check(hd is not None and any(isinstance(n, ast.Call) and dotted(n.func) == 'next' for n in ast.walk(hd)),
-                      'C18.T3', r, g.iter, 'keys are the header row (first row of the file)', 'keys are not taken from the header row')
-            loops = [l for l in r.nodes(ast.For) if q.contains(l, dc)]
-            if loops:
-                it = loops[-1].iter
+            filt = any((q.simple_compare(i) or (None, None, None))[1] == '!=' and '' in (const_value(q.simple_compare(i)[0]), const_value(q.simple_compare(i)[2]))
+                       for i in g.ifs if q.simple_compare(i)) or any(isinstance(i, ast.Name) for i in g.ifs)
+            conv = isinstance(dc.value, ast.Call) and dotted(dc.value.func) == '_try_make_number'
+            ctx.check(filt, 'C18.T3', home, dc, 'empty cells are omitted on read', 'empty cells are not omitted on read (absent fields come back as empty strings)')
+            ctx.check(conv, 'C18.T3', home, dc.value, 'cell values are converted back with _try_make_number', 'cell values are not converted back to numbers')
+            # where the header and the rows come from: in read_tsv itself; a per-row helper receives them as arguments
+            harg, site, site_fn = g.iter.args[0], dc, home
+            if home is not r:
+                calls = [c for f_ in clo for c in f_.calls() if any(t.node is home.node for t in _resolve(repo, f_, c))]
+                fn_of = {id(c): f_ for f_ in clo for c in f_.calls()}
+                if len(calls) == 1 and isinstance(harg, ast.Name) and harg.id in home.real_params:
+                    k_ = home.real_params.index(harg.id)
+                    harg, site, site_fn = q.arg(calls[0], k_, home.real_params[k_]), calls[0], fn_of[id(calls[0])]
+                else:
+                    harg = None
+            if harg is None or site_fn is not r:
+                ctx.undecided('C18.T3', r, 'origin of the header passed to the row parser not recognised')
+                continue
+            hd = r.expand(harg)
+            if any(isinstance(n, ast.Call) and dotted(n.func) == 'next' for n in ast.walk(hd)):
+                ctx.holds('C18.T3', r, 'keys are the header row (first row of the file)', harg)
+            elif isinstance(harg, ast.Name) and r.unique_def(harg.id) is not None:
+                ctx.violated('C18.T3', r, harg, 'keys are not taken from the header row (`%s`)' % unparse(hd))
+            else:
+                ctx.undecided('C18.T3', r, 'origin of the keys `%s` not recognised' % unparse(harg))
+            srcs = [l.iter for l in r.nodes(ast.For) if q.contains(l, site)] + \
+                   [g_.iter for n_ in r.nodes(ast.ListComp, ast.GeneratorExp) if q.contains(n_, site) for g_ in n_.generators]
+            if srcs:
+                it = srcs[-1]
                 itx = r.expand(it)
                 whole = isinstance(itx, ast.Call) and dotted(itx.func).endswith('reader') or (isinstance(it, ast.Call) and dotted(it.func) in ('list', 'iter', 'tuple') and len(it.args) == 1)
                 part = isinstance(it, ast.Subscript) or (isinstance(it, ast.Call) and dotted(it.func) in ('itertools.islice', 'islice')) or isinstance(it, ast.BinOp)
@@ -481,20 +527,42 @@ def t3_tsv(ctx):
         const_value(hdr[0].args[0].elts[0]) == 'cluster_id' and unparse(hdr[0].args[0].elts[1]) == fieldp
     ctx.check(ok_h, 'C18.T3', ws, hdr[0] if hdr else ws.node.name, "header row is ['cluster_id', <field name>]",
               "header row is not ['cluster_id', <field name>]")
-    rows = q.calls_named(ws, 'writerows')
-    ok_r = False
-    if rows:
-        comp = rows[0].args[0]
-        if isinstance(comp, (ast.ListComp, ast.GeneratorExp)) and isinstance(comp.elt, (ast.Tuple, ast.List)) and len(comp.elt.elts) == 2:
-            kid = comp.generators[0].target
-            it = comp.generators[0].iter
-            e0, e1 = comp.elt.elts
-            ok_r = unparse(e0) == unparse(kid) and unparse(e1) in ('%s[%s]' % (datap, unparse(kid)),) and \
-                unparse(it) in ('sorted(%s)' % datap, 'sorted(%s.keys())' % datap, datap, '%s.keys()' % datap)
-            if unparse(it) in ('sorted(%s.items())' % datap, '%s.items()' % datap) and isinstance(kid, ast.Tuple):
-                ok_r = unparse(e0) == unparse(kid.elts[0]) and unparse(e1) == unparse(kid.elts[1])
-    ctx.check(ok_r, 'C18.T3', ws, rows[0] if rows else ws.node.name, 'rows are (cluster id, its value) pairs',
-              'rows are not (cluster id, data[cluster id]) pairs')
+    # data rows: writerows(<comprehension>) or a loop of writerow(<pair>) -> (target, iterable, pair)
+    prod = []
+    for c in q.calls_named(ws, 'writerows'):
+        comp = ws.expand(c.args[0]) if c.args else None
+        if isinstance(comp, (ast.ListComp, ast.GeneratorExp)) and len(comp.generators) == 1:
+            prod.append((comp.generators[0].target, comp.generators[0].iter, comp.elt, c))
+    for l in ws.nodes(ast.For):
+        for c in q.calls_named(l, 'writerow'):
+            if c.args:
+                prod.append((l.target, l.iter, ws.expand(c.args[0]), c))
+    if len(prod) != 1 or not (isinstance(prod[0][2], (ast.Tuple, ast.List)) and len(prod[0][2].elts) == 2):
+        ctx.undecided('C18.T3', ws, 'production of the data rows of _write_tsv_simple not recognised')
+    else:
+        kid, it, pair, site = prod[0]
+        P = Pat(ws)
+        e0, e1 = pair.elts
+        by_key = isinstance(kid, ast.Name) and P.any(['sorted(%s)' % datap, 'sorted(%s.keys())' % datap, datap, '%s.keys()' % datap, 'list(%s)' % datap, 'sorted(list(%s))' % datap], it, expand=True)
+        by_item = isinstance(kid, ast.Tuple) and len(kid.elts) == 2 and all(isinstance(x, ast.Name) for x in kid.elts) and \
+            P.any(['sorted(%s.items())' % datap, '%s.items()' % datap], it, expand=True)
+        if by_key:
+            kd, vd = ast.dump(kid), ast.dump(ast.parse('%s[%s]' % (datap, kid.id), mode='eval').body)
+        elif by_item:
+            kd, vd = ast.dump(kid.elts[0]), ast.dump(kid.elts[1])
+        else:
+            kd = vd = None
+        norm = lambda x: ast.dump(ast.parse(unparse(x), mode='eval').body)
+        if kd is None:
+            ctx.undecided('C18.T3', ws, 'iteration over the clusters in _write_tsv_simple not recognised', it)
+        elif norm(e0) == norm(ast.parse(unparse(kid if by_key else kid.elts[0]), mode='eval').body) and norm(e1) == (vd if by_item else norm(ast.parse('%s[%s]' % (datap, kid.id), mode='eval').body)):
+            ctx.holds('C18.T3', ws, 'rows are (cluster id, its value) pairs', site)
+        elif norm(e1) == norm(ast.parse(unparse(kid if by_key else kid.elts[0]), mode='eval').body):
+            ctx.violated('C18.T3', ws, site, 'rows are not (cluster id, data[cluster id]) pairs: the id is written in the SECOND column (`%s`)' % unparse(pair))
+        elif all(isinstance(x, (ast.Name, ast.Subscript, ast.Constant)) for x in (e0, e1)):
+            ctx.violated('C18.T3', ws, site, 'rows are not (cluster id, data[cluster id]) pairs (`%s`)' % unparse(pair))
+        else:
+            ctx.undecided('C18.T3', ws, 'the cells of a data row `%s` were not recognised' % unparse(pair), site)
     # reader: first column -> int key, second -> value via _try_make_number ; header second column -> field name
     ok_rd = False
     for f in rs.nodes(ast.For):
@@ -525,11 +593,19 @@ def t3_tsv(ctx):
                       'the returned field name is the second header cell', 'the returned field name is `%s`, not the second header cell' % unparse(ret[-1].elts[0]))
     # _try_make_number: int is attempted before float
     tm = repo.func(M, '_try_make_number')
-    convs = [(n.lineno, n.col_offset, dotted(n.func)) for n in walk_local_ordered(tm.node) if isinstance(n, ast.Call) and dotted(n.func) in ('int', 'float')]
-    first = [c for c in convs if c[2] in ('int', 'float')]
-    ctx.check(bool(first) and first[0][2] == 'int' and any(c[2] == 'float' for c in first), 'C18.T3', tm, tm.node.name,
-              'number recovery tries int, then float, then keeps the string',
-              'number recovery does not try int before float (integers would come back as floats) or lacks the float case')
+    order = []          # conversions in the order in which they are attempted
+    for n in walk_local_ordered(tm.node):
+        if isinstance(n, ast.Call) and dotted(n.func) in ('int', 'float'):
+            order.append(dotted(n.func))
+        elif isinstance(n, ast.For) and isinstance(n.target, ast.Name) and isinstance(tm.expand(n.iter), (ast.Tuple, ast.List)) and \
+                any(isinstance(c, ast.Call) and isinstance(c.func, ast.Name) and c.func.id == n.target.id for c in ast.walk(n)):
+            order.extend(dotted(x) for x in tm.expand(n.iter).elts)      # `for convert in (int, float): ... convert(value)`
+    if order and all(x in ('int', 'float') for x in order) and order[0] == 'int' and 'float' in order:
+        ctx.holds('C18.T3', tm, 'number recovery tries int, then float, then keeps the string', tm.node.name)
+    elif order and all(x in ('int', 'float') for x in order):
+        ctx.violated('C18.T3', tm, tm.node.name, 'number recovery does not try int before float (integers would come back as floats) or lacks the float case')
+    else:
+        ctx.undecided('C18.T3', tm, 'the conversions attempted by _try_make_number were not recognised (%s)' % order)
     fallthrough = [r_ for r_ in tm.returns() if r_.value is not None and unparse(r_.value) == tm.real_params[0]]
     ctx.check(bool(fallthrough), 'C18.T3', tm, tm.node.name, 'non-numeric strings are returned unchanged', 'non-numeric strings are not returned unchanged')
 
